@@ -193,10 +193,22 @@ def run(ctx):
         ctx.report("C06-charclass", "test_delimiter/set", "test_delimiter accepts %s, R7RS delimiters are %s (difference %s)" % (
             "".join(map(chr, sorted(delim))).__repr__(), "".join(map(chr, sorted(R7RS_DELIM))).__repr__(),
             sorted(delim ^ R7RS_DELIM)), where_of(td))
-    dot_period = {pk for pk in ALPHABET if scripted(tn, [ord(".")], pk, lexenv())[0] == "tok:Period"}
-    dot_eof = scripted(tn, [ord(".")], None, lexenv())[0]
+    # (the whole lexer run on `.` followed by each character: how the dot is told from a peculiar identifier may be written with
+    # helpers and closures)
+    from . import lexrun as _lr6
+    dot_period, dot_stuck = set(), 0
+    for pk in ALPHABET:
+        toks_ = _lr6.lex(fb, "." + chr(pk) + " ", max_tokens=3)
+        if toks_ and toks_[0][0] == "Period":
+            dot_period.add(pk)
+        elif toks_ and toks_[0][0] in ("stuck", "panic"):
+            dot_stuck += 1
+    te_ = _lr6.lex(fb, ".", max_tokens=2)
+    dot_eof = "tok:Period" if te_ and te_[0][0] == "Period" else (te_[0][0] if te_ else "nothing")
     ctx.inst("C06-charclass", "dot/period-before", sorted(dot_period))
-    if not td_stuck and (dot_period != delim or dot_eof != "tok:Period"):
+    if dot_stuck or dot_eof in ("stuck", "panic"):
+        ctx.undecided("C06-charclass", "dot/delimiters", "the lexer could not be followed on `.` before %d characters" % dot_stuck, where_of(tn))
+    elif not td_stuck and (dot_period != delim or dot_eof != "tok:Period"):
         ctx.report("C06-charclass", "dot/delimiters", "`.` is a Period before %s but the delimiter set is %s (difference %s)" % (
             sorted(dot_period), sorted(delim), sorted(dot_period ^ delim)), where_of(tn))
     # digits and signs
@@ -615,7 +627,7 @@ def delimited(ctx, fb, disp):
                            "character (text such as the token immediately followed by letters is split into two tokens); "
                            "path blocks %s" % (cls, short, via, w), where_of(f, span=f.blocks[B]["stmts"][0]["span"] if f.blocks[B]["stmts"] else None))
     if n_exits < 8:
-        ctx.report("C06-delimited", "floor", "only %d token exits analysed (expected >= 8)" % n_exits)
+        ctx.undecided("C06-delimited", "floor", "only %d token exits analysed (expected >= 8)" % n_exits)
 
 
 _INF_CACHE = {}
@@ -783,4 +795,4 @@ def consumption(ctx, fb):
     ctx.inst("C06-consume-inspected", "summaries", {"entry_lookahead": {k.rsplit("::", 1)[-1]: v for k, v in sorted(entry.items())},
                                                     "exit_lookahead": {k.rsplit("::", 1)[-1]: v for k, v in sorted(exit_.items())}})
     if n < 15:
-        ctx.report("C06-consume-inspected", "floor", "only %d consumption sites analysed (expected >= 15)" % n)
+        ctx.undecided("C06-consume-inspected", "floor", "only %d consumption sites analysed (expected >= 15)" % n)
